@@ -19,6 +19,7 @@ RING_DEL = CORE + "consensus::blockring::BlockRing::delete_block"
 def run(prog, tier, extra=None):
     res = Result("C04", "other")
     R1 = res.rule("C04.undo", "every FailedNotValid exit after an insertion passes the undo", floor=2)
+    R8 = res.rule("C04.insert-is-additive", "indexing the candidate before it is validated only adds its own entry: nothing reachable from BlockRing::add_block removes an entry or moves a longest-chain marker", floor=2)
     R3 = res.rule("C04.undo-touches-ledger", "the undo of a rejected block reaches no UtxoSet mutator", floor=2)
     R2 = res.rule("C04.undo-complete", "the undo removes the block from Blockchain.blocks and from the block ring", floor=2)
     R5 = res.rule("C04.index-delete-neutral", "deleting a block from the ring moves the longest-chain marker of its slot only relative to the old marker", floor=1)
@@ -259,6 +260,33 @@ def run(prog, tier, extra=None):
     from ._include import include
     include(res, prog, tier, extra, "c05", ["C05.gate"],
             "a chain-level refusal (golden-ticket density) must come before the first unwind, in Blockchain::validate itself")
+    # R8: add_block puts the (still unvalidated, possibly hostile) candidate into the ring before validate(); add_block_failure later
+    # removes exactly that entry. "Exactly as before" therefore needs the insertion to be purely additive: no body reachable from
+    # BlockRing::add_block may remove from RingItem.block_hashes / block_ids or write RingItem.lc_pos / BlockRing.lc_pos (an id chosen
+    # by the sender must not be able to evict or re-mark entries of stored blocks).
+    from ..fields import FieldAnalysis as _FA8
+    fa8 = _FA8(prog)
+    RADD = CORE + "consensus::blockring::BlockRing::add_block"
+    if prog.body(RADD) is None:
+        raise LookupError("BlockRing::add_block not found")
+    add_reach = cg.reachable_from([RADD], kinds=("call", "await", "creates")) | {RADD}
+    for p8 in sorted(add_reach):
+        b8 = cg.bodies.get(p8)
+        if b8 is None or b8.is_promoted or not p8.startswith("saito_"):
+            continue
+        res.instance(R8)
+        bad8 = None
+        for adt8, fld8, kinds8 in (("ringitem::RingItem", "block_hashes", ("remove", "replace", "unknown")), ("ringitem::RingItem", "block_ids", ("remove", "replace", "unknown")),
+                                   ("ringitem::RingItem", "lc_pos", ("assign", "replace", "unknown")), ("blockring::BlockRing", "lc_pos", ("assign", "replace", "unknown"))):
+            for s8 in fa8.sites(b8, adt8, fld8):
+                if s8[3] in kinds8 or (s8[0] == "assign" and "assign" in kinds8):
+                    bad8 = bad8 or (fld8, s8[1])
+        if bad8:
+            res.add(Finding(R8, "C04.insert-is-additive|%s|%s" % (p8.replace("::{closure#0}", ""), bad8[0]), "%s, reachable from BlockRing::add_block, changes %s of existing index entries: "
+                            "a candidate that is later refused has already evicted or re-marked stored blocks, and add_block_failure only takes the candidate's own entry out"
+                            % (p8.replace(CORE, ""), bad8[0]), b8.loc(bad8[1])))
+        else:
+            res.sample({"rule": R8, "body": p8.replace(CORE, ""), "verdict": "adds only"})
     # "every attempt to add a block terminates": a lock-order cycle or a re-entrant acquisition on the way through add_block never returns
     AB = CORE + "consensus::blockchain::Blockchain::add_block"
     ab_reach = {q.replace("::{closure#0}", "") for q in cg.reachable_from([AB, AB + "::{closure#0}"], kinds=("call", "await", "creates"))} | {AB}
